@@ -8,7 +8,7 @@
 #include "peek.h"
 
 static const char *ARM[] = { "setword", "setword", "setbyte", "set3", "hsfield", "hsfield", "hsfield", "flipbit", "flipbit", "trunc", "extend", "setlen", "setlen",
-                             "type", "ver", "epoch", "seq", "dup", "drop", "swapnext", "refrag", "refrag", "grow", "grow", "grow", "shrink", "fragmove" };
+                             "type", "ver", "epoch", "seq", "dup", "drop", "swapnext", "refrag", "refrag", "grow", "grow", "grow", "shrink", "fragmove", "cutfront" };
 static const char *INJ[] = { "garbage", "plain23", "replay", "reflect", "cross", "relabel", "alert", "hsmsg", "hsmsg", "ccs" };
 static const int PMTUS[] = { 1500, 1500, 900, 600, 400 };
 
@@ -47,7 +47,10 @@ static Plan c08_gen(uint64_t seed, int tier, uint64_t index) {
     int ns = (int) r.below(3);
     for (int i = 0; i < ns; i++) {
         if (r.chance(1, 2)) { add_fault(r, p, aead); }
-        p.ops.push_back(Op("send", (int64_t) r.below(2), (int64_t) (1 + r.below(r.chance(1, 4) ? 40000 : 2000)), (int64_t) r.below(2)));
+        // CBC: some payload lengths that make the last block pure padding (HMAC-SHA1: len = 12 mod 16; SHA-256/384: 0 mod 16)
+        int64_t slen = (int64_t) (1 + r.below(r.chance(1, 4) ? 40000 : 2000));
+        if (!aead && r.chance(1, 4)) { slen = (int64_t) ((r.chance(2, 3) ? 12 : 16) + 16 * r.below(5)); }
+        p.ops.push_back(Op("send", (int64_t) r.below(2), slen, (int64_t) r.below(2)));
     }
     p.ops.push_back(Op("pump"));
     if (r.chance(1, 3)) { p.ops.push_back(Op("close", (int64_t) r.below(2))); p.ops.push_back(Op("pump")); }
@@ -92,6 +95,28 @@ static std::vector<Plan> c08_fixed(int tier) {
                         else { p.cfg["ver"] = 2; p.cfg["suite"] = TLS_AES_128_GCM_SHA256; p.cfg["sid_kind"] = KK_EC256; if (cfgi == 1) { p.cfg["cauth"] = KK_EC256; p.cfg["tickets"] = 1; } }
                         p.ops.push_back(Op("ptmut", dir, nth, off, (W[vi] - 1) | (MODE[vi] << 2) | (VAL[vi] << 4)));
                         p.ops.push_back(Op("hs")); p.ops.push_back(Op("send", 1 - dir, 50)); p.ops.push_back(Op("pump"));
+                        v.push_back(p);
+                    }
+                }
+            }
+        }
+    }
+    // CBC records whose leading blocks (explicit IV, then data) are cut off while the sender's last blocks - a whole block of padding - stay
+    for (int ver = 0; ver < 5; ver++) {
+        if (ver == 2) { continue; }
+        static const uint16_t S[] = { TLS_RSA_WITH_AES_128_CBC_SHA, TLS_RSA_WITH_AES_256_CBC_SHA, TLS_RSA_WITH_AES_128_CBC_SHA256 };
+        for (int si = 0; si < 3; si++) {
+            if (S[si] == TLS_RSA_WITH_AES_128_CBC_SHA256 && (ver == 0 || ver == 3)) { continue; }
+            for (int dir = 0; dir < 2; dir++) {
+                for (int len = 0; len < 3; len++) {
+                    for (int cut = 0; cut < (tier ? 6 : 3); cut++) {
+                        Plan p; p.seed = 86000 + (uint64_t) ((((ver * 3 + si) * 2 + dir) * 3 + len) * 6 + cut);
+                        p.cfg["ver"] = ver; p.cfg["suite"] = S[si];
+                        if (ver >= 3) { p.cfg["pmtu"] = 1500; }
+                        p.ops.push_back(Op("hs"));
+                        p.ops.push_back(Op("arm", dir, cut, 0, 0, "cutfront"));
+                        p.ops.push_back(Op("send", dir, (S[si] == TLS_RSA_WITH_AES_128_CBC_SHA256 ? 16 : 12) + 16 * len));
+                        p.ops.push_back(Op("pump"));
                         v.push_back(p);
                     }
                 }
